@@ -17,9 +17,11 @@
      mul.cpp on these (tabulated from the library; zoo + nan = zoo but nan + zoo = nan);
    - loops are structural ([for_up], [for_down]); `break` out of a column loop whose guard
      stays true afterwards is a no-op for the remaining iterations; exceptions are [ErrExn];
-   - branches that look wrong are transcribed as they are: the pivoted (fraction-free)
-     Gaussian eliminations use the column counter i as pivot row and as first row to
-     eliminate; the unpivoted routines divide by whatever is on the diagonal.            *)
+   - branches that look wrong are transcribed as they are: the unpivoted routines divide by
+     whatever is on the diagonal.  (The transcriptions of pivoted_gaussian_elimination,
+     pivoted_fraction_free_gaussian_elimination, fraction_free_gauss_jordan_solve and
+     fraction_free_gauss_jordan_elimination as they were before the repairs e64308a,
+     093e8f2, ee686c0 are kept in DenseLegacy.v.)                                       *)
 From SE Require Export Base.Prelude.
 From Coq Require Export QArith Qcanon.
 Local Open Scope N_scope.
@@ -405,8 +407,7 @@ Definition pivot_step (m : list qx) (pl : list (N * N)) (row col index i : N)
   else if k =? index then Ok (Some (m, pl))
   else do m <- row_exchange m col k index; Ok (Some (m, pl ++ [(k, index)])).
 
-(* pivoted_gaussian_elimination(A, B, pl).  NOTE the eliminating loop starts at row i + 1
-   and reads row i (the column counter), not row `index`. *)
+(* pivoted_gaussian_elimination(A, B, pl) (after the repair e64308a: pivot row `index`) *)
 Definition pivoted_gaussian_elimination (A B : dmat) (pl0 : list (N * N))
   : res (dmat * list (N * N)) :=
   let row := drow A in
@@ -421,11 +422,11 @@ Definition pivoted_gaussian_elimination (A B : dmat) (pl0 : list (N * N))
     | Some (m, pl) =>
         do p <- rd m (index * col + i);
         do m <- row_mul_scalar m col index (xdiv x1 p);
-        do m <- for_range (i + 1) row (fun j m =>
+        do m <- for_range (index + 1) row (fun j m =>
                   do m <- for_range (i + 1) col (fun k m =>
                             do bjk <- rd m (j * col + k);
                             do bji <- rd m (j * col + i);
-                            do bik <- rd m (i * col + k);
+                            do bik <- rd m (index * col + k);
                             wr m (j * col + k) (xsub bjk (xmul bji bik))) m;
                   wr m (j * col + i) x0) m;
         Ok (m, pl, index + 1)
@@ -459,36 +460,37 @@ Definition fraction_free_gaussian_elimination (A B : dmat) : res dmat :=
       wr m (j * col + i) x0) m) (dm A);
   Ok (setm B m).
 
-(* pivoted_fraction_free_gaussian_elimination(A, B, pl): same remark as for
-   pivoted_gaussian_elimination (rows i and i + 1 instead of index and index + 1) *)
+(* pivoted_fraction_free_gaussian_elimination(A, B, pl) (after the repair e64308a: pivot
+   row `index`, divisor = the previous pivot d, a null RCP until the first pivot has been
+   processed: it is only read when index > 0) *)
 Definition pivoted_fraction_free_gaussian_elimination (A B : dmat) (pl0 : list (N * N))
   : res (dmat * list (N * N)) :=
   let row := drow A in
   let col := dcol A in
   if col =? 0 then ErrExn EXN_EMPTY else
-  do st <- for_range 0 (col - 1) (fun i (st : est) =>
-    let '(m, pl, index) := st in
+  do st <- for_range 0 (col - 1) (fun i (st : est * qx) =>
+    let '(m, pl, index, d) := st in
     if index =? row then Ok st else
     do ps <- pivot_step m pl row col index i;
     match ps with
     | None => Ok st
     | Some (m, pl) =>
-        do m <- for_range (i + 1) row (fun j m =>
+        do m <- for_range (index + 1) row (fun j m =>
                   do m <- for_range (i + 1) col (fun k m =>
-                            do bii <- rd m (i * col + i);
+                            do bii <- rd m (index * col + i);
                             do bjk <- rd m (j * col + k);
                             do bji <- rd m (j * col + i);
-                            do bik <- rd m (i * col + k);
+                            do bik <- rd m (index * col + k);
                             do m <- wr m (j * col + k) (xsub (xmul bii bjk) (xmul bji bik));
-                            if 0 <? i then
+                            if 0 <? index then
                               do v <- rd m (j * col + k);
-                              do d <- rd m (i * col - col + i - 1);
                               wr m (j * col + k) (xdiv v d)
                             else Ok m) m;
                   wr m (j * col + i) x0) m;
-        Ok (m, pl, index + 1)
-    end) (dm A, pl0, 0);
-  let '(m, pl, _) := st in
+        do d <- rd m (index * col + i);
+        Ok (m, pl, index + 1, d)
+    end) (dm A, pl0, 0, x0);
+  let '(m, pl, _, _) := st in
   Ok (setm B m, pl).
 
 (* pivoted_gauss_jordan_elimination(A, B, pl) *)
@@ -514,11 +516,12 @@ Definition pivoted_gauss_jordan_elimination (A B : dmat) (pl0 : list (N * N))
   let '(m, pl, _) := st in
   Ok (setm B m, pl).
 
-(* fraction_free_gauss_jordan_elimination(A, B) *)
+(* fraction_free_gauss_jordan_elimination(A, B) (after the repair ee686c0:
+   for (i = 0; i < col and i < row; i++)) *)
 Definition fraction_free_gauss_jordan_elimination (A B : dmat) : res dmat :=
   let row := drow A in
   let col := dcol A in
-  do m <- for_range 0 col (fun i m =>
+  do m <- for_range 0 (N.min col row) (fun i m =>
     do d <- (if 0 <? i then do d <- rd m (i * col - col + i - 1); Ok (Some d) else Ok None);
     do m <- for_range 0 row (fun j m =>
               if j =? i then Ok m else
@@ -690,8 +693,8 @@ Fixpoint ffgj_find (n : nat) (p : N) (am : list qx) (col i : N) : res N :=
       if x_is_zero e then ffgj_find n' (p + 1) am col i else Ok p
   end.
 
-(* fraction_free_gauss_jordan_solve(A, b, x, pivot).  When no pivot exists p = col and the
-   swap loops index row `col` (the assert is compiled out): observable as [ErrOOB]. *)
+(* fraction_free_gauss_jordan_solve(A, b, x, pivot) (after the repair 093e8f2: when no pivot
+   exists, p = col, SymEngineException("Matrix is rank deficient")) *)
 Definition fraction_free_gauss_jordan_solve (A b x : dmat) (piv : bool) : res dmat :=
   let col := dcol A in
   let bcol := dcol b in
@@ -700,6 +703,7 @@ Definition fraction_free_gauss_jordan_solve (A b x : dmat) (piv : bool) : res dm
     do d <- (if 0 <? i then do d <- rd am (i * col - col + i - 1); Ok (Some d) else Ok None);
     do st <- (if piv then
                 do p <- ffgj_find (N.to_nat (col - i)) i am col i;
+                if p =? col then ErrExn EXN_RANKDEF else
                 if p =? i then Ok (am, bm) else
                 do am <- for_range i col (fun k am =>
                            do a <- rd am (p * col + k);
